@@ -393,6 +393,7 @@ fn run_lists(seed: u64, n: usize, out: &mut Out) {
         // (4) hosts entries: the loaded rule is the standard rule `||host^`, and so is the engine
         if let FilterFormat::Hosts = f {
             let mut std_lines: Vec<String> = vec![];
+            let mut all_ascii = true;
             for l in &accepted {
                 if let Ok(ParsedFilter::Network(nf)) = parse_filter(l, false, o) {
                     let host = nf.hostname.clone().unwrap_or_default();
@@ -408,9 +409,21 @@ fn run_lists(seed: u64, n: usize, out: &mut Out) {
                             out.fail("hosts-entry-host-differs-from-its-field", None, json!({"line": l, "rule_hostname": host, "expected": fld}));
                         }
                     }
+                    // (non-ASCII entries: IDNA may drop ignorable characters in front of a `www.` label, so the text
+                    // that was parsed is not recoverable from the rule; compare everything but the text hash)
+                    let strip_id = |d: String| -> String {
+                        let mut p: Vec<&str> = d.split(';').collect();
+                        if !l.is_ascii() && p.len() > 9 {
+                            p[9] = "_";
+                        }
+                        p.join(";")
+                    };
+                    if !l.is_ascii() {
+                        all_ascii = false;
+                    }
                     match parse_filter(&text, false, opts(FilterFormat::Standard, RuleTypes::All, 0)) {
                         Ok(ParsedFilter::Network(sf)) => {
-                            if dump_rule(&sf, false) != dump_rule(&nf, false) {
+                            if strip_id(dump_rule(&sf, false)) != strip_id(dump_rule(&nf, false)) {
                                 out.fail("hosts-entry-differs-from-standard-rule", None, json!({"line": l, "standard_text": text, "hosts_rule": dump_rule(&nf, false), "standard_rule": dump_rule(&sf, false)}));
                             }
                         }
@@ -420,7 +433,8 @@ fn run_lists(seed: u64, n: usize, out: &mut Out) {
                     let plain_host = !host.is_empty() && host.chars().all(|c| c.is_ascii_lowercase() || c.is_ascii_digit() || c == '.' || c == '-') && !host.starts_with('.') && !host.starts_with('-') && !host.contains("..");
                     let mut pr = PRule { line: l.clone(), f: Box::new(nf), rm: Default::default() };
                     for (u, want) in [(format!("https://{}/x.js", host), true), (format!("http://sub.{}/", host), true), (format!("https://{}.evil.example/", host), false), (format!("https://not{}/", host), false)] {
-                        if !plain_host {
+                        // (hosts whose text occurs earlier inside the probe hostname are the shape of known finding F2 of C02)
+                        if !plain_host || format!("sub.{}", host).find(&host) != Some(4) {
                             break;
                         }
                         if let Some(q) = make_req(&u, "https://page.example/", "script") {
@@ -432,7 +446,7 @@ fn run_lists(seed: u64, n: usize, out: &mut Out) {
                     std_lines.push(text);
                 }
             }
-            if t.loads_network_rules() {
+            if t.loads_network_rules() && all_ascii {
                 let (ta, tb) = (text_all.clone(), std_lines.join("\n"));
                 let a = guarded(move || engine_bytes(&ta, o, optimize));
                 let b = guarded(move || engine_bytes(&tb, opts(FilterFormat::Standard, RuleTypes::All, 0), optimize));
